@@ -110,4 +110,29 @@ theorem C17_short_sig_counterexample (env : Env) :
     recoverOrPanic env (List.replicate 63 0) (List.replicate 63 0) = none := by
   simp [recoverOrPanic]
 
+/-- **C17 (an attestation lands only in its sender's slot).** Writing an attestation of the validator with EVM address
+`addr` into the slots of a snapshot changes no slot other than those whose member (in the validator set the slots are laid out
+by) is `addr`, keeps the number of slots, and does write the signature into the sender's slot when it has one. -/
+theorem C17_att_own_slot (set : List String) (slots : List Bytes) (addr : String) (sig : Bytes) :
+    (placeAtt set slots addr sig).length = slots.length ∧
+    (∀ i : Nat, (placeAtt set slots addr sig)[i]? ≠ slots[i]? → set[i]? = some addr) ∧
+    (∀ i : Nat, i < slots.length → set[i]? = some addr → (placeAtt set slots addr sig)[i]? = some sig) := by
+  refine ⟨by simp [placeAtt], ?_, ?_⟩
+  · intro i h
+    by_cases hi : i < slots.length
+    · by_cases hs : set[i]? = some addr
+      · exact hs
+      · exfalso; apply h; simp [placeAtt, List.getElem?_mapIdx, hs]
+    · exfalso; apply h
+      simp [placeAtt, List.getElem?_eq_none (Nat.le_of_not_lt hi)]
+  · intro i hi hs
+    simp [placeAtt, List.getElem?_mapIdx, hs, List.getElem?_eq_getElem hi]
+
+/-- **C17 (counterexample before fix c849ea3).** Laid out by the *last saved* set after a checkpoint swapped the order of two
+validators, A's attestation for a snapshot taken under `[A, B]` lands in slot 0 of `[B, A]`'s layout … i.e. in slot 1 of the
+snapshot's own set, which belongs to B. -/
+theorem C17_att_slot_counterexample :
+    let snapSet := ["A", "B"]; let lastSaved := ["B", "A"]
+    (placeAtt lastSaved [[], []] "A" [1])[1]? = some [1] ∧ snapSet[1]? ≠ some "A" := by decide
+
 end Layer.Proposal
